@@ -415,3 +415,42 @@ def c19(ctx):
         mc_writer(ctx, ["Inv_C19", "Inv_C19_Class"], 5, "full", name="MC_Writer5")
     writer_check(ctx, "C19", ["writer:calls"], need=("elem:unexpected_tag", "elem:size", "rawtag:id", "end:closing", "full:unexpected_tag", "start:unexpected_tag"))
     ctx.rule = "one evaluation = one writer run; each case pairs a valid call sequence with failing calls of every kind (tag not allowed here, size not representable in the width, unknown size on a non-master, malformed raw id, End of a non-innermost master, Full with an invalid child / grandchild) inserted at random positions with the sequence without them"
+
+
+@prop("C11")
+def c11(ctx):
+    consts = {"NIds": 3, "MaxP": 3, "MaxC": 4 if ctx.quick else 5}
+    r = C.tlc_mc("C11_MC_PathMatch", "MC_PathMatch", cfg(constants=consts, invariants=["AlgoEqualsDeclarative", "RootOnlyAtTop", "NamedParentsExact", "WholeChainConsumed", "GlobBounds"]), workers=12, heap="8g")
+    ctx.add_mc(r)
+    ctx.need_coverage(r, ["GrowP", "Turn", "GrowC"])
+    traces = []
+    for d in ["paths", "paths_exhaustive"]:
+        tf = ctx.path(d + ".ndjson")
+        C.run_harness([d, "--out", tf, "--seed", ctx.seed, "--tier", ctx.tier], timeout=3000)
+        traces.append(tf)
+        oc = ctx.extra.setdefault("verdict_coverage", {})
+        for line in open(tf):
+            if '"ev":"path"' in line:
+                e = json.loads(line)
+                ctx.count(json.dumps([e["chain"], e["unk"], e["tag"], e["tag_unknown"]]) + line[:0], nontrivial=len(e["chain"]) > 0)
+                for k in ("w:" + e["w"], "r:" + e["r"]):
+                    oc[k] = oc.get(k, 0) + 1
+                if len(ctx.samples) < 5 and len(e["chain"]) >= 2 and e["r"] != "na":
+                    ctx.samples.append(e)
+    for k in ("w:ok", "w:unexpected_tag", "r:ok", "r:hier"):
+        if ctx.extra["verdict_coverage"].get(k, 0) == 0:
+            raise C.ToolError("vacuity: verdict never observed: " + k)
+    for tf in traces:
+        ctx.validate("C11_" + os.path.basename(tf)[:-7], "PathTrace", tf, per_case=False)
+    ctx.rule = "one evaluation = one (specification, chain of open masters with known/unknown sizes, tag) triple with the real writer's verdict (tag written after opening the chain) and the real strict reader's verdict (element after the chain's master headers); distinct = distinct (chain, sizes, tag) within a specification; non-trivial = at least one master open. paths: random specifications with placeholders in trailing and intermediate position, random walks; paths_exhaustive: the bounded universe of MC_PathMatch (every pattern of <= 3 parts x every chain of <= 4 masters; 1/8 sample in quick) replayed into the real writer"
+    ctx.assumptions += ["Matches (declarative path semantics) is the oracle; MC_PathMatch proves the single-pass matcher MatchAlgo equal to it on the bounded universe", "reader verdicts are taken only for chains that start at a root element (no implied ancestors)"]
+
+
+@prop("C17")
+def c17(ctx):
+    reader_check(ctx, "C17", (4, "{0, 4, 7}", "Buf_none", "{TRUE}", "Maxes_both"),
+                 ["reader:adversarial", "reader:mutate", "reader:total"], gen_args=None,
+                 thorough_mc_args=(5, "{0, 4}", "Buf_none", "{TRUE}", "Maxes_both"), need=("too_big", "eof", "oversized"))
+    ctx.rule = "one evaluation = one run over a header with an adversarial declared size (0 .. 2^56-2, every vint width, at the root and inside known-/unknown-size masters) under a limit M in {16, 1 KiB, 100 k, 1 MiB, default 4 GB, none}, a tolerance set and a capacity, payload mostly missing; every call records the peak heap growth (counting allocator) and the buffer capacity (hook); distinct as for C03"
+    ctx.assumptions += ["peak heap growth is measured by the harness's counting global allocator around each call; 64 KiB slack covers error values, the emission queue and the returned item",
+                        "no case asks the real code for more than 8 MiB it may legitimately allocate (sizes within a limit above that are not generated)"]
